@@ -1,5 +1,6 @@
-(* C01 -- CTMC jump rates are the Levy-measure masses of the grid cells.  Only statements; proofs in Proofs/C01_Chain.v.
-   Model: Model/Chain.v (samplingfactory.create_q_vector / compute_intensity_of_jumps, TruncatedLevyMeasure) over
+(* C01 -- CTMC jump rates are the Levy-measure masses of the grid cells.  Only statements; proofs in Proofs/C01_Chain.v,
+   Proofs/C01_Chain2d.v (dimension 2) and Proofs/C01_Chain3d.v (dimension 3).
+   Model: Model/Chain.v, Model/Chain3d.v (samplingfactory.create_q_vector / compute_intensity_of_jumps, TruncatedLevyMeasure) over
    Model/Grid.v; `_truncated_interval` is the py2coq-generated Gen/GenC01Trunc.v.
    The theorems are stated inside a Section for an ARBITRARY interval mass `mass a b` (= LevyMeasure.integrate) that is
    additive and non-negative ON INTERVALS NOT CONTAINING THE ORIGIN (so that infinite-activity measures qualify), over Q
@@ -8,7 +9,8 @@
    mid_between is required of ALL x < y, which CTMCGridProbabilityStep.middle violates (middle(-0.001, 0) = -h/2), so the
    probability-step grid is covered by the per-state oracle of props/C01.py, not by these theorems. *)
 From Coq Require Import ZArith QArith List.
-From RV Require Import Base.QB Model.Grid Gen.GenC01Trunc Model.Chain Proofs.C13_Grid Proofs.C01_Chain Proofs.C01_Chain2d.
+From RV Require Import Base.QB Model.Grid Gen.GenC01Trunc Model.Chain Model.Chain3d Proofs.C13_Grid Proofs.C01_Chain Proofs.C01_Chain2d
+  Proofs.C01_Chain3d.
 Import ListNotations.
 Open Scope Q_scope.
 
@@ -129,6 +131,89 @@ Section Measure2d.
   Proof. intros xs ys o hx hy i j Ax Ay. apply (rates_nonneg_2d mid) with (hx := hx) (hy := hy); assumption. Qed.
 End Measure2d.
 
+(* ---------------- dimension 3: the product grid of a 3-d copula chain (Model/Chain3d.v: q_entry3 / q_tensor3 / intensity3, the
+   3^3-1 = 26 boxes of compute_intensity_of_jumps).  mass3 a b = LevyCopulaModel.mass(a, b) (_mass_3d), the box mass: additive under
+   a split of any one coordinate interval and non-negative ON BOXES THAT AVOID THE ORIGIN.  The three axes may differ (lengths,
+   points, spatial steps hx hy hz); they share the origin index, as CTMCGrid's single origin_coordinate imposes. *)
+Section Measure3d.
+  Variable mid : Q -> Q -> Q.
+  Hypothesis mid_between : forall x y, x < y -> x < mid x y /\ mid x y < y.
+  Hypothesis mid_refl : forall x, ~ x == 0 -> mid x x == x.
+  Hypothesis mid_proper : forall x x' y y', x == x' -> y == y' -> mid x y == mid x' y'.
+  Variable mass3 : Q3 -> Q3 -> Q.
+  Hypothesis mass3_add1 : forall a b c y1 y2 z1 z2, a <= b -> b <= c -> avoids3 (a, y1, z1) (c, y2, z2) ->
+    mass3 (a, y1, z1) (c, y2, z2) == mass3 (a, y1, z1) (b, y2, z2) + mass3 (b, y1, z1) (c, y2, z2).
+  Hypothesis mass3_add2 : forall x1 x2 a b c z1 z2, a <= b -> b <= c -> avoids3 (x1, a, z1) (x2, c, z2) ->
+    mass3 (x1, a, z1) (x2, c, z2) == mass3 (x1, a, z1) (x2, b, z2) + mass3 (x1, b, z1) (x2, c, z2).
+  Hypothesis mass3_add3 : forall x1 x2 y1 y2 a b c, a <= b -> b <= c -> avoids3 (x1, y1, a) (x2, y2, c) ->
+    mass3 (x1, y1, a) (x2, y2, c) == mass3 (x1, y1, a) (x2, y2, b) + mass3 (x1, y1, b) (x2, y2, c).
+  Hypothesis mass3_pos : forall a b, p1 a <= p1 b -> p2 a <= p2 b -> p3 a <= p3 b -> avoids3 a b -> 0 <= mass3 a b.
+  Hypothesis mass3_proper : forall a1 a2 a3 b1 b2 b3 a1' a2' a3' b1' b2' b3',
+    a1 == a1' -> a2 == a2' -> a3 == a3' -> b1 == b1' -> b2 == b2' -> b3 == b3' ->
+    mass3 (a1, a2, a3) (b1, b2, b3) == mass3 (a1', a2', a3') (b1', b2', b3').
+
+  (* the rates of ALL non-origin states of the 3-d product grid sum to the intensity the process reports (the 26 boxes), for any
+     three admissible axes of any lengths sharing the origin index: telescoping axis by axis *)
+  Theorem C01_sum_rates_is_intensity_3d : forall xs ys zs o hx hy hz, admissible xs o hx -> admissible ys o hy -> admissible zs o hz ->
+    qsum3 (q_tensor3 mid mass3 xs ys zs o) == intensity3 mid mass3 xs ys zs o.
+  Proof.
+    intros xs ys zs o hx hy hz Ax Ay Az.
+    apply (sum_rates_is_intensity_3d mid mid_between mid_refl mid_proper mass3 mass3_add1 mass3_add2 mass3_add3 mass3_proper)
+      with (hx := hx) (hy := hy) (hz := hz); assumption.
+  Qed.
+
+  (* the product cells tile the truncated box minus the central cell: every state lies in its own cell, the cell of every
+     non-origin state avoids the origin (so its mass is finite also for infinite-activity margins), neighbouring cells share a
+     face along each axis, the outermost faces are the truncation bounds and the innermost ones the faces of the central cell *)
+  Theorem C01_cells_tile_3d : forall xs ys zs o hx hy hz, admissible xs o hx -> admissible ys o hy -> admissible zs o hz ->
+    (forall i j k, (i < length xs)%nat -> (j < length ys)%nat -> (k < length zs)%nat ->
+       (cell_lo mid xs i <= nthq xs i <= cell_hi mid xs i /\ cell_lo mid ys j <= nthq ys j <= cell_hi mid ys j
+        /\ cell_lo mid zs k <= nthq zs k <= cell_hi mid zs k)
+       /\ ((i, j, k) <> (o, o, o) ->
+           avoids3 (cell_lo mid xs i, cell_lo mid ys j, cell_lo mid zs k) (cell_hi mid xs i, cell_hi mid ys j, cell_hi mid zs k))
+       /\ ((i + 1 < length xs)%nat -> cell_hi mid xs i = cell_lo mid xs (i + 1))
+       /\ ((j + 1 < length ys)%nat -> cell_hi mid ys j = cell_lo mid ys (j + 1))
+       /\ ((k + 1 < length zs)%nat -> cell_hi mid zs k = cell_lo mid zs (k + 1)))
+    /\ (cell_lo mid xs 0 == headq xs /\ cell_hi mid xs (length xs - 1) == lastq xs
+        /\ cell_hi mid xs (o - 1) == h_left mid xs o /\ cell_lo mid xs (o + 1) == h_right mid xs o)
+    /\ (cell_lo mid ys 0 == headq ys /\ cell_hi mid ys (length ys - 1) == lastq ys
+        /\ cell_hi mid ys (o - 1) == h_left mid ys o /\ cell_lo mid ys (o + 1) == h_right mid ys o)
+    /\ (cell_lo mid zs 0 == headq zs /\ cell_hi mid zs (length zs - 1) == lastq zs
+        /\ cell_hi mid zs (o - 1) == h_left mid zs o /\ cell_lo mid zs (o + 1) == h_right mid zs o).
+  Proof. intros xs ys zs o hx hy hz Ax Ay Az. apply (cells_tile_3d mid mid_between mid_refl mid_proper) with (hx := hx) (hy := hy) (hz := hz); assumption. Qed.
+
+  Theorem C01_rates_nonneg_3d : forall xs ys zs o hx hy hz i j k, admissible xs o hx -> admissible ys o hy -> admissible zs o hz ->
+    (i < length xs)%nat -> (j < length ys)%nat -> (k < length zs)%nat -> 0 <= q_entry3 mid mass3 xs ys zs o i j k.
+  Proof.
+    intros xs ys zs o hx hy hz i j k Ax Ay Az.
+    apply (rates_nonneg_3d mid mid_between mid_refl mid_proper mass3 mass3_pos) with (hx := hx) (hy := hy) (hz := hz); assumption.
+  Qed.
+End Measure3d.
+
+(* the hypotheses of Section Measure3d are satisfiable, and discharged for the family the correspondence runs: the box mass of a
+   3-d density table with non-negative densities is additive in each coordinate, non-negative and respects == on ALL boxes *)
+Theorem C01_table_mass3_is_a_measure : forall ps, Forall (fun p => 0 <= dens3 p) ps ->
+  (forall a b c y1 y2 z1 z2, a <= b -> b <= c ->
+     step_mass3 ps (a, y1, z1) (c, y2, z2) == step_mass3 ps (a, y1, z1) (b, y2, z2) + step_mass3 ps (b, y1, z1) (c, y2, z2))
+  /\ (forall x1 x2 a b c z1 z2, a <= b -> b <= c ->
+     step_mass3 ps (x1, a, z1) (x2, c, z2) == step_mass3 ps (x1, a, z1) (x2, b, z2) + step_mass3 ps (x1, b, z1) (x2, c, z2))
+  /\ (forall x1 x2 y1 y2 a b c, a <= b -> b <= c ->
+     step_mass3 ps (x1, y1, a) (x2, y2, c) == step_mass3 ps (x1, y1, a) (x2, y2, b) + step_mass3 ps (x1, y1, b) (x2, y2, c))
+  /\ (forall a b, 0 <= step_mass3 ps a b)
+  /\ (forall a1 a2 a3 b1 b2 b3 a1' a2' a3' b1' b2' b3', a1 == a1' -> a2 == a2' -> a3 == a3' -> b1 == b1' -> b2 == b2' -> b3 == b3' ->
+     step_mass3 ps (a1, a2, a3) (b1, b2, b3) == step_mass3 ps (a1', a2', a3') (b1', b2', b3')).
+Proof.
+  intros ps H. split; [exact (step_mass3_add1 ps)|]. split; [exact (step_mass3_add2 ps)|]. split; [exact (step_mass3_add3 ps)|].
+  split; [intros; apply step_mass3_pos; exact H|exact (step_mass3_proper ps)].
+Qed.
+
+(* composed: for the 3-d table chains NO hypothesis on the mass is left (arithmetic-mean middle, the one CTMCGrid.middle computes) *)
+Theorem C01_table_chain_3d : forall ps xs ys zs o hx hy hz, Forall (fun p => 0 <= dens3 p) ps ->
+  admissible xs o hx -> admissible ys o hy -> admissible zs o hz ->
+  qsum3 (q_tensor3 amid (step_mass3 ps) xs ys zs o) == intensity3 amid (step_mass3 ps) xs ys zs o
+  /\ (forall i j k, (i < length xs)%nat -> (j < length ys)%nat -> (k < length zs)%nat -> 0 <= q_entry3 amid (step_mass3 ps) xs ys zs o i j k).
+Proof. exact step_chain_3d. Qed.
+
 (* _truncated_interval (generated from the source): intersection with [l,r], degenerate when disjoint *)
 Theorem C01_truncated_interval : forall l r a b, l <= r -> a <= b ->
   let '(aa, bb) := truncated_interval l r a b in
@@ -161,6 +246,21 @@ Example C01_nonvacuous_2d :
   /\ Qeq_bool (intensity2 amid (step_mass2 ps) xs xs 2) (43 # 4) = true.
 Proof. vm_compute. repeat split. Qed.
 
+(* three DIFFERENT admissible axes; mass inside the central cell (9/64: the intensity is less than the total mass 1132/64), in
+   cells straddling one and two coordinate planes, and a zero-rate state *)
+Example C01_nonvacuous_3d :
+  let ps := [(1#8, 1, 1#8, 3#2, 0, 1, 4); (-2, -(1#2), 0, 1#2, 1#2, 2, 3); (-1, 0, -(3#2), -(1#4), -1, 0, 6); (0, 2, -(1#2), 0, -2, -1, 2)] in
+  let xs := [-2; -1; 0; 1; 2] in let ys := [-2; -(1#2); 0; 1#2; 2] in let zs := [-2; -(3#2); 0; 3#2; 2] in
+  admissibleb xs 2 1 = true /\ admissibleb ys 2 (1#2) = true /\ admissibleb zs 2 (3#2) = true
+  /\ forallb (fun p => Qle_bool 0 (dens3 p)) ps = true
+  /\ Qeq_bool (qsum3 (q_tensor3 amid (step_mass3 ps) xs ys zs 2)) (intensity3 amid (step_mass3 ps) xs ys zs 2) = true
+  /\ Qeq_bool (intensity3 amid (step_mass3 ps) xs ys zs 2) (1123 # 64) = true
+  /\ Qeq_bool (step_mass3 ps (-2, -2, -2) (2, 2, 2)) (1132 # 64) = true
+  /\ Qeq_bool (q_entry3 amid (step_mass3 ps) xs ys zs 2 2 2 3) (3 # 64) = true
+  /\ Qeq_bool (q_entry3 amid (step_mass3 ps) xs ys zs 2 2 1 2) (9 # 4) = true
+  /\ Qeq_bool (q_entry3 amid (step_mass3 ps) xs ys zs 2 1 2 1) 0 = true.
+Proof. vm_compute. repeat split. Qed.
+
 Print Assumptions C01_cells_tile.
 Print Assumptions C01_cells_avoid_origin.
 Print Assumptions C01_rates_nonneg.
@@ -171,7 +271,13 @@ Print Assumptions C01_refined.
 Print Assumptions C01_sum_rates_is_intensity_2d.
 Print Assumptions C01_cells_tile_2d.
 Print Assumptions C01_rates_nonneg_2d.
+Print Assumptions C01_sum_rates_is_intensity_3d.
+Print Assumptions C01_cells_tile_3d.
+Print Assumptions C01_rates_nonneg_3d.
+Print Assumptions C01_table_mass3_is_a_measure.
+Print Assumptions C01_table_chain_3d.
 Print Assumptions C01_truncated_interval.
 Print Assumptions C01_step_mass_is_a_measure.
 Print Assumptions C01_nonvacuous.
 Print Assumptions C01_nonvacuous_2d.
+Print Assumptions C01_nonvacuous_3d.
